@@ -199,6 +199,10 @@ def _local_transfer_loops(v: FuncView, h: str, setter: str, getter: str):
                 want_tab = "_node_metadata" if "node" in getter else "_edge_metadata"
                 if isinstance(it, ast.Call) and not (isinstance(it.func, ast.Attribute) and it.func.attr == "items") and any(is_self_attr(a_, want_tab) for a_ in list(it.args) + [k.value for k in it.keywords]):
                     out.append(n)
+                # pairs collected first: `P = [(X, self.<getter>(X)) for X in ITER]; for X, M in P: h.<setter>(X, M)`
+                lstp = v.resolve(it) if isinstance(it, ast.Name) else it
+                if isinstance(lstp, (ast.ListComp, ast.GeneratorExp)) and len(lstp.generators) == 1 and not lstp.generators[0].ifs and isinstance(lstp.generators[0].target, ast.Name) and isinstance(lstp.elt, ast.Tuple) and len(lstp.elt.elts) == 2 and isinstance(lstp.elt.elts[0], ast.Name) and lstp.elt.elts[0].id == lstp.generators[0].target.id and _is_getter_of(v, lstp.elt.elts[1], getter, lstp.generators[0].target.id):
+                    out.append(n)
                 if isinstance(it, ast.Call) and isinstance(it.func, ast.Attribute) and it.func.attr == "items" and not it.args:
                     d = v.resolve(it.func.value) if isinstance(it.func.value, ast.Name) else it.func.value
                     if isinstance(d, ast.DictComp) and len(d.generators) == 1 and isinstance(d.generators[0].target, ast.Name) and isinstance(d.key, ast.Name) and d.key.id == d.generators[0].target.id and _is_getter_of(v, d.value, getter, d.key.id):
